@@ -644,9 +644,37 @@ package server
 //@   loop 1 invariant forall p string :: {result[p]} result[p] == ite(iterseen[p], resolved.Files[p], 0) && (has(result, p) <==> iterseen[p])
 //@   loop 1 invariant forall p string :: iterseen[p] ==> has(resolved.Files, p)
 
-//@ trusted findDefinitionTarget
-//@   effects none
+// What is under the cursor. InRng is the specification of positionInRange. When nothing is reported, no occurrence of
+// an account (posting or declaration), of a commodity (amount, cost, balance assertion or declaration) or of a payee
+// contains the position: a cursor on any occurrence finds its symbol (after the fix: costs, assertions and
+// declarations were not looked at).
+//@ pred InRng(pos, rng) := (pos.Line + 1 > rng.Start.Line || (pos.Line + 1 == rng.Start.Line && pos.Character + 1 >= rng.Start.Column)) && (pos.Line + 1 < rng.End.Line || (pos.Line + 1 == rng.End.Line && pos.Character + 1 <= rng.End.Column)) && pos.Line + 1 >= rng.Start.Line && pos.Line + 1 <= rng.End.Line
+//@ pred ComAt(c, pos) := c.Symbol != "" && InRng(pos, c.Range)
+//@ pred PostingMiss(po, pos) := !InRng(pos, po.Account.Range) && (po.Amount != nil ==> !ComAt(po.Amount.Commodity, pos)) && (po.Cost != nil ==> !ComAt(po.Cost.Amount.Commodity, pos)) && (po.BalanceAssertion != nil ==> !ComAt(po.BalanceAssertion.Amount.Commodity, pos))
+//@ pred DirMiss(d, pos) := (typeis(d, "ast.AccountDirective") ==> !(as(d, "ast.AccountDirective").Account.Name != "" && InRng(pos, as(d, "ast.AccountDirective").Account.Range))) && (typeis(d, "ast.CommodityDirective") ==> !ComAt(as(d, "ast.CommodityDirective").Commodity, pos))
+//@ func commodityTargetAt
+//@   props C09
+//@   requires c != nil && (c.Symbol != "" ==> RngOK(c.Range))
+//@   ensures [C09:found_iff_under_cursor] (result != nil) <==> ComAt(c, pos)
+//@   ensures [commodity_named] result != nil ==> result.context == DefContextCommodity && result.name == c.Symbol && result.name != "" && result.symbolRange != nil && fresh(result)
+//@ func findDefinitionTarget
+//@   props C09
+//@   requires journal != nil && JRefOK(journal) && JComOK(journal) && JPayOK(journal)
 //@   ensures [commodity_named] result != nil && result.context == DefContextCommodity ==> result.name != ""
+//@   ensures [C09:target_has_a_range] result != nil ==> result.symbolRange != nil
+//@   ensures [C09:nothing_under_cursor_means_no_occurrence] result == nil ==> (forall d int :: {journal.Directives[d]} 0 <= d && d < len(journal.Directives) ==> DirMiss(journal.Directives[d], pos)) && (forall i int, k int :: {journal.Transactions[i].Postings[k]} 0 <= i && i < len(journal.Transactions) && 0 <= k && k < len(journal.Transactions[i].Postings) ==> PostingMiss(journal.Transactions[i].Postings[k], pos))
+//@   loop 1 invariant journal != nil && JRefOK(journal) && JComOK(journal) && JPayOK(journal) && 0 - 1 <= rangeindex && rangeindex <= len(journal.Directives) - 1
+//@   loop 1 invariant forall d int :: {journal.Directives[d]} 0 <= d && d <= rangeindex ==> DirMiss(journal.Directives[d], pos)
+//@   loop 1 decreases len(journal.Directives) - rangeindex
+//@   loop 2 invariant journal != nil && JRefOK(journal) && JComOK(journal) && JPayOK(journal) && 0 - 1 <= rangeindex && rangeindex <= len(journal.Transactions) - 1
+//@   loop 2 invariant forall d int :: {journal.Directives[d]} 0 <= d && d < len(journal.Directives) ==> DirMiss(journal.Directives[d], pos)
+//@   loop 2 invariant forall i int, k int :: {journal.Transactions[i].Postings[k]} 0 <= i && i <= rangeindex && 0 <= k && k < len(journal.Transactions[i].Postings) ==> PostingMiss(journal.Transactions[i].Postings[k], pos)
+//@   loop 2 decreases len(journal.Transactions) - rangeindex
+//@   loop 3 invariant journal != nil && JRefOK(journal) && JComOK(journal) && JPayOK(journal) && 0 <= i && i < len(journal.Transactions) && 0 - 1 <= rangeindex && rangeindex <= len(journal.Transactions[i].Postings) - 1
+//@   loop 3 invariant forall d int :: {journal.Directives[d]} 0 <= d && d < len(journal.Directives) ==> DirMiss(journal.Directives[d], pos)
+//@   loop 3 invariant forall i2 int, k int :: {journal.Transactions[i2].Postings[k]} 0 <= i2 && i2 < i && 0 <= k && k < len(journal.Transactions[i2].Postings) ==> PostingMiss(journal.Transactions[i2].Postings[k], pos)
+//@   loop 3 invariant forall k int :: {journal.Transactions[i].Postings[k]} 0 <= k && k <= rangeindex ==> PostingMiss(journal.Transactions[i].Postings[k], pos)
+//@   loop 3 decreases len(journal.Transactions[i].Postings) - rangeindex
 // sortAndDedup sorts in place (sort.Slice: some permutation, the comparator is not executed) and keeps the first of equal
 // neighbours: no location is invented - stated against the slice as sort.Slice left it, which the model of sort.Slice
 // takes to be a permutation of what it held. (That none is lost was proved up to the loop invariant but is not stable
